@@ -137,8 +137,44 @@ pub fn client_tables_return_to_empty() -> Value {
 				failures.push(json!({"history":"call; answered", "table_sizes": format!("{:?}", sizes)}));
 			}
 		}
+		// H6: the application drops the stream while the send task is busy inside the transport (the closure request waits in the
+		// queue); the server closes the subscription on its own; then the send task resumes. No unsubscribe is due any more and
+		// nothing may be left — in particular not the slot reserved for the unsubscribe call
+		{
+			let (c, mut peer, gate, mut entered) = mock::gated_client(ClientBuilder::default().request_timeout(std::time::Duration::from_secs(5)));
+			let c = std::sync::Arc::new(c);
+			let fut = c.subscribe::<u64, _>("sub", rpc_params![], "unsub");
+			let h = tokio::spawn(async move {
+				let req = peer.next().await.unwrap();
+				peer.send(&json!({"jsonrpc":"2.0","id":id_of(&req),"result":"S6"}).to_string());
+				peer
+			});
+			let sub: Subscription<u64> = fut.await.unwrap();
+			let mut peer = h.await.unwrap();
+			let c2 = c.clone();
+			let call = tokio::spawn(async move { c2.request::<u64, _>("block", rpc_params![]).await.ok() });
+			let _ = tokio::time::timeout(std::time::Duration::from_secs(3), entered.recv()).await;
+			drop(sub);
+			mock::settle().await;
+			peer.send(&json!({"jsonrpc":"2.0","method":"sub","params":{"subscription":"S6","error":"closed"}}).to_string());
+			mock::settle().await;
+			gate.notify_one();
+			let mut unsub_seen = None;
+			for _ in 0..2 {
+				if let Some(m) = peer.next().await {
+					if m.contains("\"block\"") { peer.send(&json!({"jsonrpc":"2.0","id":id_of(&m),"result":7}).to_string()); break; } else { unsub_seen = Some(m); }
+				}
+			}
+			let answered = tokio::time::timeout(std::time::Duration::from_secs(3), call).await.ok().and_then(|r| r.ok()).flatten();
+			mock::settle().await;
+			let sizes = c.verif_table_sizes();
+			if answered != Some(7) || sizes != (0, 0, 0, 0) || unsub_seen.is_some() {
+				failures.push(json!({"history":"subscribe; accepted 'S6'; send task busy in the transport; application drops stream; server closes 'S6'; send task resumes",
+					"call_answered": answered, "unsubscribe_sent": unsub_seen, "table_sizes(requests,subscriptions,batches,handlers)": format!("{:?}", sizes)}));
+			}
+		}
 		if failures.is_empty() {
-			json!({"probe":"client_tables_return_to_empty","disagrees":false,"histories_tried":5})
+			json!({"probe":"client_tables_return_to_empty","disagrees":false,"histories_tried":6})
 		} else {
 			json!({"probe":"client_tables_return_to_empty","disagrees":true,"input":failures,"expected":"all four tables empty: (0, 0, 0, 0)",
 				"observed": "residual entries (see input[*].table_sizes)"})
@@ -1465,7 +1501,59 @@ pub fn client_send_failure_reports_cause() -> Value {
 				"observed": joined, "expected":"every affected call fails with an error carrying the cause (broken pipe); on_disconnect resolves"});
 		}
 	}
-	json!({"probe":"client_send_failure_reports_cause","disagrees":false,"histories_tried":7})
+	// the window while the transport's close() is still running: a watcher registered BEFORE the fault, and a call issued
+	// 10 ms after it (close() takes 50 ms), must both get the cause — the front end may learn that the connection is gone only
+	// once the cause has been recorded
+	for threads in [1usize, 4] {
+		let rt = tokio::runtime::Builder::new_multi_thread().worker_threads(threads).enable_all().build().unwrap();
+		let out = rt.block_on(async move {
+			let (c, _peer) = mock::failing_client2(ClientBuilder::default().request_timeout(std::time::Duration::from_secs(3)), 1, false);
+			let c = std::sync::Arc::new(c);
+			let cw = c.clone();
+			let watcher = tokio::spawn(async move { cw.on_disconnect().await.to_string() });
+			tokio::time::sleep(std::time::Duration::from_millis(10)).await;
+			let c1 = c.clone();
+			let failing = tokio::spawn(async move { c1.request::<u64, _>("m", rpc_params![]).await.map_err(|e| e.to_string()) });
+			tokio::time::sleep(std::time::Duration::from_millis(10)).await;
+			let during = c.request::<u64, _>("during_close", rpc_params![]).await.map_err(|e| e.to_string());
+			let mut errs = vec![format!("call during close(): {during:?}")];
+			errs.push(format!("watcher registered before the fault: {:?}", tokio::time::timeout(std::time::Duration::from_secs(3), watcher).await.map(|r| r.unwrap_or_default())));
+			errs.push(format!("failing call: {:?}", tokio::time::timeout(std::time::Duration::from_secs(3), failing).await.map(|r| r.ok())));
+			errs
+		});
+		let joined = out.join(" | ");
+		if joined.contains("could not be found") || joined.matches("broken pipe").count() < 3 || joined.contains("Elapsed") {
+			return json!({"probe":"client_send_failure_reports_cause","disagrees":true,
+				"input": format!("an on_disconnect() watcher is registered; 10 ms later a call's send fails with 'broken pipe'; 10 ms later (close() takes 50 ms) another call is issued; {threads} worker thread(s)"),
+				"observed": joined, "expected":"the watcher, the failing call and the call issued during close() all report the cause (broken pipe) — never the placeholder"});
+		}
+	}
+	// the receive side: a watcher registered before, a call pending and a call issued after the fault all get the cause — for a
+	// transport receive error and for a message that is no JSON-RPC message
+	for (what, needle) in [("the transport's receive fails with 'reset by peer'", "reset by peer"), ("the server sends the text `garbage`", "")] {
+		let rt = tokio::runtime::Builder::new_multi_thread().worker_threads(2).enable_all().build().unwrap();
+		let out = rt.block_on(async move {
+			let (c, mut peer) = mock::client(ClientBuilder::default().request_timeout(std::time::Duration::from_secs(3)));
+			let c = std::sync::Arc::new(c);
+			let cw = c.clone();
+			let watcher = tokio::spawn(async move { cw.on_disconnect().await.to_string() });
+			let c1 = c.clone();
+			let pending = tokio::spawn(async move { c1.request::<u64, _>("m", rpc_params![]).await.map_err(|e| e.to_string()) });
+			let _ = peer.next().await;
+			if needle.is_empty() { peer.send("garbage"); } else { let _ = peer.to_client.send(Err(needle.to_string())); }
+			let w = tokio::time::timeout(std::time::Duration::from_secs(3), watcher).await.map(|r| r.unwrap_or_default());
+			let p = tokio::time::timeout(std::time::Duration::from_secs(3), pending).await.map(|r| r.ok());
+			let later = c.request::<u64, _>("later", rpc_params![]).await.map_err(|e| e.to_string());
+			vec![format!("watcher: {w:?}"), format!("pending call: {p:?}"), format!("later call: {later:?}")]
+		});
+		let joined = out.join(" | ");
+		if joined.contains("could not be found") || joined.contains("Elapsed") || joined.matches("restart required").count() < 3 || (!needle.is_empty() && joined.matches(needle).count() < 3) {
+			return json!({"probe":"client_send_failure_reports_cause","disagrees":true,
+				"input": format!("an on_disconnect() watcher and a call are pending; {what}; then another call is issued"),
+				"observed": joined, "expected":"the watcher, the pending call and the later call all report the disconnect cause — never the placeholder"});
+		}
+	}
+	json!({"probe":"client_send_failure_reports_cause","disagrees":false,"histories_tried":11})
 }
 
 // ------------------------------------------------------------------------------------------
